@@ -1,6 +1,8 @@
 import NumbersModel.Lemmas.Tokenizer
 import NumbersModel.Lemmas.TokenizerQuotes
 import NumbersModel.Model.TokenizerCfg
+import NumbersModel.Lemmas.TokenizerQRef
+import NumbersModel.Model.FormulaAcceptDefs
 namespace NumbersModel.Tokenizer
 open NumbersModel
 
@@ -47,9 +49,6 @@ end NumbersModel.Tokenizer
 namespace NumbersModel.Tokenizer
 open NumbersModel
 
-/-- characters the loop just appends to the pending operand. -/
-def plain (c : Char) : Bool :=
-  !(liveCfg.enders.contains c) && !(c = '"') && !(c = '\'') && !(c = '#') && !(c = '{') && !(c = '(')
 
 theorem plain_facts {c : Char} (h : plain c = true) :
     liveCfg.enders.contains c = false ∧ c ≠ '"' ∧ c ≠ '\'' ∧ c ≠ '#' ∧ c ≠ '{' ∧ c ≠ '(' := by
@@ -355,9 +354,18 @@ theorem binGlyph_op {c : Char} (h : BinGlyph c = true) : OpGlyph c = true := by
   have : ∀ x ∈ binGlyphs, OpGlyph x = true := by decide
   exact this c (by simpa [BinGlyph, List.contains_iff_mem] using h)
 
+/-- what may follow the quoted part of a reference: nothing, or `:` and a plain name that does not start
+    with white space (`'a-b':alpha`). -/
+def PostOK (post : List Char) : Prop :=
+  post = [] ∨ ∃ c r, post = ':' :: c :: r ∧ plain c = true ∧ isWs liveCfg.ws c = false ∧ ∀ x ∈ r, plain x = true
+
 /-- formula texts: `G true` expressions, `G false` comma/semicolon separated argument lists. -/
 inductive G : Bool → List Char → Prop
   | atom (t : List Char) : t ≠ [] → (∀ c ∈ t, plain c = true) → snMatch t = false → G true t
+  /-- a reference with quoted names: an optional plain prefix ending in a colon (`Table 1::`, `Sheet::Table::`,
+      `alpha:`), a chain of quoted names `'a-b'` / `'a-b':'c+d'`, optionally `:` and a plain name. -/
+  | qatom (pre q post : List Char) : (∀ c ∈ pre, plain c = true) → (pre = [] ∨ pre.getLast? = some ':') →
+      SQChain q → PostOK post → G true (pre ++ (q ++ post))
   | str (v : List Char) : DQLit v → G true v
   | neg (e : List Char) : G true e → G true ('-' :: e)
   | pct (e : List Char) : G true e → G true (e ++ ['%'])
@@ -383,6 +391,13 @@ theorem G_start : ∀ {b : Bool} {t : List Char}, G b t → b = true → ∃ c r
     cases t with
     | nil => exact absurd rfl hne
     | cons c r => exact ⟨c, r, rfl, plain_not_eq_gt (hp c (by simp))⟩
+  | qatom pre q post hp _ hq _ =>
+    intro _
+    cases pre with
+    | nil =>
+      obtain ⟨x, rfl⟩ : ∃ x, q = '\'' :: x := by cases hq <;> exact ⟨_, rfl⟩
+      exact ⟨'\'', _, rfl, by decide, by decide⟩
+    | cons c r => exact ⟨c, _, rfl, plain_not_eq_gt (hp c (by simp))⟩
   | str v hv => intro _; obtain ⟨body, rfl, _⟩ := hv; exact ⟨'"', _, rfl, by decide, by decide⟩
   | neg e _ _ => intro _; exact ⟨'-', e, rfl, by decide, by decide⟩
   | pct e _ ih => intro _; obtain ⟨c, r, rfl, h⟩ := ih rfl; exact ⟨c, r ++ ['%'], rfl, h⟩
@@ -412,6 +427,48 @@ theorem next_not_dq {r : List Char} (h : Next r) : ∀ r', r ≠ '"' :: r' := by
 
 theorem pend_nil : Pend [] := by intro h; simp at h
 
+theorem endlike_facts {c : Char} (h : EndLike c = true) : isWs liveCfg.ws c = false ∧ c ≠ ':' ∧ c ≠ '\'' := by
+  have hall : ∀ x ∈ opGlyphs ++ [')', '}', ',', ';'], isWs liveCfg.ws x = false ∧ x ≠ ':' ∧ x ≠ '\'' := by decide
+  apply hall
+  unfold EndLike OpGlyph at h
+  simp only [Bool.or_eq_true, decide_eq_true_eq, List.contains_iff_mem] at h
+  simp only [List.mem_append, List.mem_cons, List.mem_nil_iff, or_false]
+  tauto
+
+theorem stopsSq_of_next {r : List Char} (h : Next r) : StopsSq liveCfg.ws r := by
+  rcases h with rfl | ⟨c, r', rfl, hc⟩
+  · exact Or.inl rfl
+  · obtain ⟨h1, h2, h3⟩ := endlike_facts hc
+    exact Or.inr (Or.inl ⟨c, r', rfl, h1, h2, h3⟩)
+
+theorem colon_plain : plain ':' = true := by decide
+
+theorem plain_not_apostrophe {c : Char} (h : plain c = true) : c ≠ '\'' := (plain_facts h).2.2.1
+
+theorem postOK_plain {post : List Char} (h : PostOK post) : ∀ c ∈ post, plain c = true := by
+  rcases h with rfl | ⟨c, r, rfl, hc, _, hr⟩
+  · simp
+  · intro x hx
+    simp only [List.mem_cons] at hx
+    rcases hx with rfl | rfl | hx
+    · exact colon_plain
+    · exact hc
+    · exact hr x hx
+
+theorem stopsSq_post {post r : List Char} (hp : PostOK post) (hn : Next r) : StopsSq liveCfg.ws (post ++ r) := by
+  rcases hp with rfl | ⟨c, r', rfl, hc, hws, _⟩
+  · simpa using stopsSq_of_next hn
+  · exact Or.inr (Or.inr ⟨c, r' ++ r, by simp, hws, plain_not_apostrophe hc⟩)
+
+theorem sqChain_head {q : List Char} (h : SQChain q) : ∃ x, q = '\'' :: x := by
+  cases h <;> exact ⟨_, rfl⟩
+
+theorem snMatch_apostrophe {t : List Char} (h : '\'' ∈ t) : snMatch t = false :=
+  snMatch_false_of_mem h (by decide)
+
+theorem snMatch_colon (r : List Char) : snMatch (':' :: r) = false :=
+  snMatch_false_of_mem (c := ':') (by simp) (by decide)
+
 /-- the tokenizer reads any text of the grammar without error, leaving the bracket stack as it found it. -/
 theorem G_runs : ∀ {b : Bool} {t : List Char}, G b t → ∀ (st : St) (r : List Char), st.token = [] →
     st.rest = t ++ r → NextOK b r →
@@ -422,6 +479,44 @@ theorem G_runs : ∀ {b : Bool} {t : List Char}, G b t → ∀ (st : St) (r : Li
     intro st r ht hr _
     refine ⟨_, run_plain_run t st r hp hr, rfl, rfl, ?_⟩
     simp only [ht, List.nil_append]; intro _; exact hsn
+  | qatom pre q post hp hpre hq hpost =>
+    intro st r ht hr hn
+    have hr' : st.rest = pre ++ (q ++ (post ++ r)) := by simpa [List.append_assoc] using hr
+    have e0 := run_plain_run pre st _ hp hr'
+    have hm := sqMatch_chain hq (post ++ r) (stopsSq_post hpost hn)
+    obtain ⟨x, hx⟩ := sqChain_head hq
+    have htake : (q ++ (post ++ r)).take q.length = q := List.take_left' rfl
+    have hdrop : (q ++ (post ++ r)).drop q.length = post ++ r := List.drop_left' rfl
+    have hpostp := postOK_plain hpost
+    have e1 := step_sq (st := { st with token := st.token ++ pre, rest := q ++ (post ++ r) }) (x := x ++ (post ++ r))
+      (n := q.length) (by simp [hx]) (by simpa [ht] using hpre) hm
+    simp only [htake, hdrop, ht, List.nil_append] at e1
+    have hne0 : q ++ (post ++ r) ≠ [] := by rw [hx]; simp
+    by_cases hpe : pre = []
+    · subst hpe
+      simp only [ne_eq, not_true_eq_false, if_false] at e1
+      have e2 := run_plain_run post
+        { st with items := st.items ++ [makeOperand q], token := [], rest := post ++ r } r hpostp rfl
+      refine ⟨{ st with items := st.items ++ [makeOperand q], token := [] ++ post, rest := r }, ?_, rfl, rfl, ?_⟩
+      · rw [e0]
+        simp only [ht, List.nil_append, List.append_nil] at e1 ⊢
+        rw [run_step hne0 e1, e2]
+        simp
+      · simp only [List.nil_append]
+        intro _
+        rcases hpost with rfl | ⟨c, r', rfl, _, _, _⟩
+        · rename_i hl; simp at hl
+        · exact snMatch_colon _
+    · simp only [ne_eq, hpe, not_false_eq_true, if_true] at e1
+      have e2 := run_plain_run post
+        { st with token := pre ++ q, rest := post ++ r } r hpostp rfl
+      refine ⟨{ st with token := pre ++ q ++ post, rest := r }, ?_, rfl, rfl, ?_⟩
+      · rw [e0]
+        simp only [ht, List.nil_append] at e1 ⊢
+        rw [run_step hne0 e1, e2]
+      · intro _
+        apply snMatch_apostrophe
+        rw [hx]; simp
   | str v hv =>
     intro st r ht hr hn
     have e := step_str hr hv ht (next_not_dq hn)
